@@ -31,7 +31,7 @@ REQUIRED_COUNTERS = {'quick': ['matches_witness_checked', 'negative_patterns_che
 
 def student_root():
     from pedal.cait.cait_api import parse_program
-    return parse_program().astNode
+    return parse_program(**cc.kw()).astNode
 
 
 def check(ctx, src, pattern, kind, must_be_empty=False):
@@ -42,7 +42,7 @@ def check(ctx, src, pattern, kind, must_be_empty=False):
     except SyntaxError:
         return None
     try:
-        matches = find_matches(pattern)
+        matches = find_matches(pattern, **cc.kw())
     except Exception as e:
         ctx.violation('C10|find_matches-raised|%s|%s' % (type(e).__name__, site_of(e)), case, traceback.format_exc()[-500:])
         return None
@@ -76,7 +76,7 @@ def check(ctx, src, pattern, kind, must_be_empty=False):
         # a file that starts with a marker): nothing of the pattern occurs in it
         for empty in ('', '\n'):
             try:
-                stray = find_matches(pattern, empty)
+                stray = find_matches(pattern, empty, **cc.kw())
             except Exception as e:
                 ctx.violation('C10|find_matches-raised|%s|%s|explicit-empty-program' % (type(e).__name__, site_of(e)), dict(case, explicit_code=empty), traceback.format_exc()[-400:])
                 break
